@@ -1241,4 +1241,64 @@ def encode_case(row, k):
             (pubblob and S(pubblob)) * row['nkeys'] + S(sect)
         return dict(pem=pem_wrap(b'OPENSSH PRIVATE KEY', blob), pw=None,
                     comment=cm or None)
+    if scheme == 'ecpriv':
+        oid = {'ec256': '1.2.840.10045.3.1.7', 'ec384': '1.3.132.0.34',
+               'ec521': '1.3.132.0.35'}[row['kt']]
+        from cryptography.hazmat.primitives import serialization as ser
+        d = pk.private_numbers().private_value
+        n = (pk.curve.key_size + 7) // 8
+        q = pk.public_key().public_bytes(ser.Encoding.X962,
+                                         ser.PublicFormat.UncompressedPoint)
+        items = [dINT(1), dOCT(d.to_bytes(n, 'big'))]
+        if row['params'] == 'present':
+            items.append(_der(0xa0, dOID(oid)))
+        if row['pub'] == 'present':
+            items.append(_der(0xa1, _der(0x03, b'\0' + q)))
+        sec1 = dSEQ(*items)
+        if row['container'] == 'sec1':
+            return dict(der=sec1, typ=b'EC PRIVATE KEY', pw=None)
+        p8 = dSEQ(dINT(0), dSEQ(dOID('1.2.840.10045.2.1'), dOID(oid)),
+                  dOCT(sec1))
+        return dict(der=p8, typ=b'PRIVATE KEY', pw=None)
     raise ValueError(scheme)
+
+
+# passphrase VALUES (part "passval")
+_LONG = ''.join(chr(48 + i % 75) for i in range(1024))
+PASS_VALUES = {'none': None, 'empty_str': '', 'empty_bytes': b'',
+               'one': 'x', 'nonascii': 'pässwörd-鍵',
+               'highbytes': b'\xff\xfe pass \x80\x81', 'long': _LONG,
+               'str': 'same text', 'bytes_same': b'same text'}
+
+
+def other_spelling(v):
+    if isinstance(v, str):
+        return v.encode('utf-8')
+    return v.decode('utf-8')
+
+
+def other_passphrase(v):
+    if v is None or len(v) == 0:
+        return 'y' if not isinstance(v, bytes) else b'y'
+    return v[:-1] + ('Y' if isinstance(v, str) else b'Y') \
+        if v[-1:] not in ('Y', b'Y') else v[:-1] + \
+        ('Z' if isinstance(v, str) else b'Z')
+
+
+def looks_encrypted(data, fmt):
+    """Structural check, independent of any library: is this private key
+    file encrypted?"""
+    if fmt.endswith('-pem') or fmt == 'openssh':
+        if b'ENCRYPTED' in data.split(b'\n', 3)[0] or \
+                b'Proc-Type: 4,ENCRYPTED' in data[:120]:
+            return True
+        if fmt == 'openssh':
+            body = binascii.a2b_base64(b''.join(data.splitlines()[1:-1]))
+            off = len(b'openssh-key-v1\0')
+            n = struct.unpack('>I', body[off:off + 4])[0]
+            return body[off + 4:off + 4 + n] != b'none'
+        return False
+    # DER: PrivateKeyInfo starts SEQUENCE { INTEGER version ...;
+    # EncryptedPrivateKeyInfo starts SEQUENCE { SEQUENCE {...
+    hl = 2 if data[1] < 0x80 else 2 + (data[1] & 0x7f)
+    return data[hl] == 0x30
